@@ -3,12 +3,27 @@
 # usage: build.sh [default|esm|format]   -> /verif/target/bin/tsrs-sim-<config>
 set -u
 cfg="${1:-default}"
-cd /verif/sim || exit 2
 export CARGO_NET_OFFLINE=true
 export RUSTFLAGS="--cfg ts_rs_verif"
-export CARGO_TARGET_DIR=/verif/target
-# the lock file is pruned by cargo on first use; restore it from the repository's if missing
-[ -f Cargo.lock ] || cp /repo/Cargo.lock Cargo.lock
+if [ -n "${VERIF_REPO:-}" ]; then
+  # tooling only (tools/sensitivity.sh): build the same simulator sources against another
+  # checkout of the repository, through a shadow manifest, into a separate target directory.
+  # The registered checks never set this and always build from /repo.
+  shadow=/verif/target/shadow
+  mkdir -p "$shadow"
+  sed -e "s|path = \"/repo/ts-rs\"|path = \"$VERIF_REPO/ts-rs\"|" /verif/sim/Cargo.toml > "$shadow/Cargo.toml"
+  printf '\n[[bin]]\nname = "tsrs-sim"\npath = "/verif/sim/src/main.rs"\n' >> "$shadow/Cargo.toml"
+  [ -f "$shadow/Cargo.lock" ] || cp /repo/Cargo.lock "$shadow/Cargo.lock"
+  cd "$shadow" || exit 2
+  export CARGO_TARGET_DIR=/verif/target/shadow-target
+  bindir=/verif/target/shadow-bin
+else
+  cd /verif/sim || exit 2
+  export CARGO_TARGET_DIR=/verif/target
+  bindir=/verif/target/bin
+  # the lock file is pruned by cargo on first use; restore it from the repository's if missing
+  [ -f Cargo.lock ] || cp /repo/Cargo.lock Cargo.lock
+fi
 case "$cfg" in
   default) feats="" ;;
   esm) feats="--features esm" ;;
@@ -16,11 +31,11 @@ case "$cfg" in
   *) echo "unknown config $cfg" >&2; exit 2 ;;
 esac
 log=$(mktemp /verif/target/build.XXXXXX.log 2>/dev/null || mktemp)
-mkdir -p /verif/target/bin
+mkdir -p "$bindir"
 if ! cargo build --release --offline $feats >"$log" 2>&1; then
   grep -E "^error" -A15 "$log" | head -80 >&2
   echo "HARNESS ERROR: build failed (config $cfg); full log: $log" >&2
   exit 2
 fi
 rm -f "$log"
-cp -f /verif/target/release/tsrs-sim "/verif/target/bin/tsrs-sim-$cfg" || exit 2
+cp -f "$CARGO_TARGET_DIR/release/tsrs-sim" "$bindir/tsrs-sim-$cfg" || exit 2
